@@ -19,12 +19,13 @@ var c05Specs = []famSpec{
 	{Family: "off-tiny-delta", FreshQ: 1500, FreshT: 50000},
 	{Family: "off-groups", FreshQ: 1500, FreshT: 50000},
 	{Family: "off-big", FreshQ: 300, FreshT: 10000},
+	{Family: "off-fine-arc", Pool: 100000, PoolQ: 3000},
 }
 
 func init() {
 	register(&run.Prop{
 		ID: "C05",
-		Rule: "case = simple polygon set with holes (nested star polygons in disjoint annuli, combs; validated simple by an exact O(n^2) segment test; outer ccw / holes cw or globally flipped; in half of the cases the paths of the set are listed in random order) + delta (both signs, 0.6 .. 3x the size; |delta|<0.5 in off-tiny-delta) + join type (4) + miter limit {1,1.5,2,5} + arc tolerance {0, 0.25, delta/2, 0.005 (delta*2.5e-7 for large deltas)}; off-groups adds the clusters as separate ClipperOffset groups, with PreserveCollinear / ReverseSolution switched on at random; off-big: one ring of 200..1200 vertices or 16..64 separate polygons on a grid. " +
+		Rule: "case = simple polygon set with holes (nested star polygons in disjoint annuli, combs; validated simple by an exact O(n^2) segment test; outer ccw / holes cw or globally flipped; in half of the cases the paths of the set are listed in random order) + delta (both signs, 0.6 .. 3x the size; |delta|<0.5 in off-tiny-delta) + join type (4) + miter limit {1,1.5,2,5} + arc tolerance {0, 0.25, delta/2}; off-fine-arc (closed pool): the off-nested inputs with an explicit arc tolerance of 0.005 (delta*2.5e-7 for large deltas), far below the default 0.002*delta; off-groups adds the clusters as separate ClipperOffset groups, with PreserveCollinear / ReverseSolution switched on at random; off-big: one ring of 200..1200 vertices or 16..64 separate polygons on a grid. " +
 			"Checked (tol = 2 + arc tolerance, k = 1 Round/Bevel, sqrt2 Square, max(miterLimit,sqrt2) Miter): delta>0: input-region points and points delta-tol along every edge's outward normal are inside; every result vertex and every sampled result point is within k*delta+tol of the input region; Round: points closer than delta-tol inside, farther than delta+tol outside. " +
 			"delta<0: the mirror statements for the complement; |delta|<0.5: output equals the input without repeated points; result canonical modulo the global orientation flip (windings in {0,s}). Non-trivial = non-empty result and >= 10 membership comparisons; distinct by input digest.",
 		Assumptions: []string{"exact point-in-region by 128-bit winding; distances in float64 with 0.01 margin", "default arc tolerance is the library's documented 0.002*|delta| when none is given"},
@@ -110,9 +111,12 @@ func offInput(id run.CaseID) offCase {
 	}
 	oc.Join = r.Intn(4)
 	oc.Miter = gen.PickOf(r, 1, 1.5, 2, 5)
-	oc.ArcTol = gen.PickOf(r, 0, 0, 0.25, mag/2, 0.005)
-	if oc.ArcTol == 0.005 && mag > 20000 { // an explicit tolerance far below the default 0.002*delta, but at most ~4500 steps per turn
-		oc.ArcTol = mag * 2.5e-7
+	oc.ArcTol = gen.PickOf(r, 0, 0, 0.25, mag/2)
+	if id.Family == "off-fine-arc" { // an explicit tolerance far below the default 0.002*delta, but at most ~4500 steps per turn
+		oc.ArcTol = 0.005
+		if mag > 20000 {
+			oc.ArcTol = mag * 2.5e-7
+		}
 	}
 	if r.Chance(0.1) { // a vertex exactly on the origin
 		dx, dy := anchorShift(r, []Paths{oc.Paths}, nil)
